@@ -104,6 +104,36 @@ func c14Exec(c *Ctx, op string) string {
 			return "#"
 		}
 		switch f[0] {
+		case "net.keep4":
+			var ipv, ipv2 uint32
+			var n, n2 int
+			if len(f) != 5 {
+				return "bad-op"
+			}
+			if _, err := fmt.Sscanf(strings.Join(f[1:], " "), "%x %d %x %d", &ipv, &n, &ipv2, &n2); err != nil || n > 32 || n2 > 32 {
+				return "bad-op"
+			}
+			want := &net.IPNet{IP: ip4(ipv), Mask: net.CIDRMask(n, 32)}
+			have := &net.IPNet{IP: ip4(ipv2), Mask: net.CIDRMask(n2, 32)}
+			keep, err := datapath.VerifDstRuleKeeps(1, want, have, 2)
+			if err != nil {
+				return "err"
+			}
+			if !keep {
+				return "replace"
+			}
+			c.Count("net.keep4-kept")
+			// monitor: a kept filter classifies exactly the CIDR it is kept for
+			off, val, mask, _ := datapath.VerifDstIPRule(1, have, 2)
+			keys := []netlink.TcU32Key{{Off: off, Val: val, Mask: mask}}
+			other := ip4(c.R.U32())
+			for _, a := range append(probes(c.R, ip4(ipv), n), probes(c.R, ip4(ipv2), n2)...) {
+				if evalKeys(keys, hdr4(other, a)) != want.Contains(a) {
+					c.Violate("C14/dst4/kept-filter-not-exact", fmt.Sprintf("the filter installed for %s is kept as the classifier of %s, but gives %v on %s (containment %v)", have, want, evalKeys(keys, hdr4(other, a)), a, want.Contains(a)), op)
+					break
+				}
+			}
+			return "keep"
 		case "net.u32v4", "net.dst4":
 			var ipv uint32
 			var n int
@@ -336,6 +366,13 @@ func c14Run(c *Ctx) {
 				c.One(line, c14Exec(c, line), n > 0 && n < 32)
 				c.Count(op)
 			}
+			// a filter left on the ENI by an earlier configuration: the same network address with another prefix length, the same
+			// CIDR, a neighbouring one - kept or replaced?
+			n2 := Pick(r, []int{n, n, (n + 8) % 33, (n + 24) % 33, r.Intn(33)})
+			ip2 := Pick(r, []uint32{ip, ip, ip, ip ^ 1<<uint(r.Intn(32)), r.U32()})
+			kl := fmt.Sprintf("net.keep4 %08x %d %08x %d", ip, n, ip2, n2)
+			c.One(kl, c14Exec(c, kl), n2 != n)
+			c.Count("net.keep4")
 			line := fmt.Sprintf("net.gw 32 %08x %d", ip, n)
 			c.One(line, c14Exec(c, line), n < 31)
 			c.Count("net.gw4")
